@@ -243,3 +243,6 @@ def r5_xarray_stack(ctx):
 
 
 RULES.append(r5_xarray_stack)
+
+from .common import lazy  # noqa: E402
+RULES.append(lazy("C13", "r4_batch_transform", "a batch holding one node is passed through, not reduced over its internal axes"))
